@@ -164,7 +164,7 @@ impl Property for C11 {
         ]
     }
     fn cases(tier: Tier) -> u64 {
-        tier.pick(40_000, 1_000_000)
+        tier.pick(200_000, 1_000_000)
     }
     fn strategy(_tier: Tier) -> BoxedStrategy<Spec> {
         (doc_strategy(false), prop_oneof![8 => ed_key(), 1 => any_key()], prop_oneof![3 => Just(0u8), 1 => Just(1u8), 1 => Just(2u8), 1 => Just(3u8)]).prop_map(|(doc, key, prelude)| Spec { doc, key, prelude }).boxed()
